@@ -43,17 +43,19 @@ Init == /\ S = {S0}
         /\ kf = {}
         /\ taint = FALSE
 
+\* (a call flagged np in a linear recording was not followed by an observation: only its result is judged)
 Explained(out(_, _), e) ==
-    { o \in UNION { out(s, e) : s \in S } : o.res = e.res /\ ProjOK(o.st, e.proj) }
+    { o \in UNION { out(s, e) : s \in S } : o.res = e.res /\ ("np" \in DOMAIN e.op \/ ProjOK(o.st, e.proj)) }
 
 Walk(i) ==
     LET e  == T[i]
         m  == Explained(TOut, e)
         mk == Explained(TKFOut, e)
+        np == "np" \in DOMAIN e.op
     IN  /\ node' = i
         /\ IF taint
              THEN UNCHANGED <<S, err, kf, taint>>                    \* walked, not judged
-             ELSE IF m # {}
+             ELSE IF m # {} /\ ~(np /\ mk # {})
                THEN LET tr == Trig(S, e)
                     IN  /\ S' = { o.st : o \in m }
                         /\ err' = 0
@@ -61,7 +63,8 @@ Walk(i) ==
                         /\ taint' = (tr # {})
                         /\ (tr # {} => PrintT(<<"KFHIT", i, tr>>))
                ELSE IF mk # {}
-                 THEN /\ S' = { o.st : o \in mk }
+                 THEN \* (after an unobserved call nothing tells the ideal outcome from the deviation: both are kept)
+                      /\ S' = { o.st : o \in mk } \cup (IF np THEN { o.st : o \in m } ELSE {})
                       /\ err' = 0
                       /\ kf' = kf \cup { o.kf : o \in mk }
                       /\ taint' = (\E o \in mk : o.taint)
